@@ -3,14 +3,25 @@
 ** frame variants) and seeks (SET/CUR/END, block-boundary targets) on ONE handle must deliver ref[pos...] every time.
 */
 #include "vh.h"
+#include "foreign.h"
 
+static void walk_m (MEMF m, const char *fn, int format, int ch, int rate, int B, int mode, int steps) ;
 static void walk (int format, int ch, int rate, int mode, int steps, int noise)
-{	MEMF m ; SNDFILE *s ; SF_INFO ri ; const char *fn = vh_fname (format) ; int B = vh_block (format, ch, rate), t, st, sub = format & SF_FORMAT_SUBMASK ;
-	long N = B > 1 ? 4 * B + B / 3 + 5 : 4507, F, got = -1, pos = 0 ;	/* at least ~4500 frames so that requests beyond the 2048/4096-item staging buffers exist for small-block codecs too */ char *ref [T_N] ; int lossless = vh_is_lossless_int (format) || vh_is_fp (sub) ;
+{	MEMF m ; const char *fn = vh_fname (format) ; int B = vh_block (format, ch, rate), sub = format & SF_FORMAT_SUBMASK ;
+	long N = B > 1 ? 4 * B + B / 3 + 5 : 4507 ;	/* at least ~4500 frames so that requests beyond the 2048/4096-item staging buffers exist for small-block codecs too */ int lossless = vh_is_lossless_int (format) || vh_is_fp (sub) ;
 	if (sub >= SF_FORMAT_ALAC_16 && sub <= SF_FORMAT_ALAC_32) { B = 4096 ; N = 2 * 4096 + 1500 ; }
 	if (N < 4500 + B) N = 4500 + B + B / 3 ;
 	if (N * ch > 80000) N = 80000 / ch + 1 ;
 	if (vh_make_file (&m, format, ch, rate, N, noise ? 2 : lossless ? 0 : 1) != 0) { vh_statf (1, "cannot_write:%s", fn) ; mv_free (&m) ; return ; }
+	walk_m (m, fn, format, ch, rate, B, mode, steps) ;
+}
+/* the oracle proper, on any file image (owns and frees it): needs no model of the file, so files the library did not write itself qualify too */
+static void walk_m (MEMF m, const char *fn, int format, int ch, int rate, int B, int mode, int steps)
+{	SNDFILE *s ; SF_INFO ri ; int t, st, sub = format & SF_FORMAT_SUBMASK ; long F, got = -1, pos = 0 ; char *ref [T_N] ;
+	if (format == 0)		/* a foreign file: what it is follows from opening it */
+	{	s = vh_open_r (&m, 0, 0, 0, &ri) ; if (s == NULL) { vh_stat ("foreign_files_refused", 1) ; mv_free (&m) ; return ; }
+		format = ri.format ; ch = ri.channels ; rate = ri.samplerate ; sub = format & SF_FORMAT_SUBMASK ; B = vh_block (format, ch, rate) ; sf_close (s) ;
+		if (ch < 1 || ch > 8) { mv_free (&m) ; return ; } }
 	/* references: one sequential read per type, each from a fresh handle */
 	for (t = 0 ; t < T_N ; t++)
 	{	long g ;
@@ -128,6 +139,15 @@ int main (int argc, char **argv)
 			vh_sample ("%s ch=%d: %s walk of up to %d steps (reads of 1, B-1, B, B+1, random sizes in 4 types; seeks SET/CUR/END to 0, 1, B-1, B, B+1, F-B, F-1, F, random, past-end, negative)", vh_fname (format), chs [c], mode ? "seek+read" : "pure partition", steps) ;
 			walk (format, chs [c], 8000, mode, steps, (w & 2) != 0) ;		/* walks 2, 3, 6, 7 ...: position-addressable noise instead of the smooth signal */
 			}
+		}
+	/* files as other programs write them (harness/foreign.h): the oracle needs no model of the file */
+	for (f = 0 ; f < foreign_count () ; f++) for (w = 0 ; w < (vh_thorough ? 24 : 6) ; w++)
+	{	unsigned char *b = NULL ; long n = 0 ; const char *nm = foreign_make (f, &b, &n) ; MEMF m ; char fnb [96] ; int mode = (w & 1) ;
+		if (!vh_case ("foreign file %s walk=%d %s", nm, w, mode ? "seek+read" : "partition")) { free (b) ; continue ; }
+		vh_distinct (vh_fnv (0, nm, strlen (nm)) ^ ((uint64_t) w << 44) ^ vh_rs) ; vh_stat ("foreign_file_walks", 1) ;
+		if (w == 0) vh_sample ("foreign file %s (%ld bytes): pure partition and seek+read walks against its own sequential references", nm, n) ;
+		memset (&m, 0, sizeof (m)) ; m.d = b ; m.len = n ; m.cap = n ; snprintf (fnb, sizeof (fnb), "foreign:%s", nm) ;
+		walk_m (m, fnb, 0, 0, 0, 1, mode, mode == 0 ? 100000 : (vh_thorough ? 6000 : 2000)) ;
 		}
 	return vh_finish () ;
 }
